@@ -85,6 +85,10 @@ type c20Search struct {
 	depth     int
 	name      string
 	counter   *int
+
+	writercache int
+	seqstates   bool
+	permbatch   int
 }
 
 func (s *c20Search) newPure() *vfPure {
@@ -109,6 +113,11 @@ func (s *c20Search) readAll(db *vfDB, d *vfDomain) vfAnswers {
 func (s *c20Search) execute(hist []string) (vios []c20Vio, outcome string) {
 	db := s.env.newDB(s.cachesize)
 	defer db.close()
+
+	if s.writercache > 0 || s.seqstates || s.permbatch > 0 {
+		db.writercache, db.seqstates, db.permbatch = s.writercache, s.seqstates, s.permbatch
+		db.reopen() // NOTE nothing was written yet; the permanent batch limit is set when opening
+	}
 
 	p := s.newPure()
 
@@ -265,7 +274,7 @@ func TestVerifC20(t *testing.T) {
 	maxblocks := vlib.Pick(r, 4, 5)
 
 	r.Rule("BFS over event histories (alphabet: write+commit the next block of kind S/F/P/O - genesis G first -, abandoned block write U, mergePermanent m, MergeAllPermanent M, RemoveBlocks(h) for every h from one below the lowest temp to one above the last block, cleanRemoved(0) c, close+reopen X, pool writes o/p/b/e once each) " +
-		"to the stated depth with at most the stated number of committed blocks, once without and once with caches (permanent state cache, block write state cache, pool operation cache; size 16); state key as in C19 + pool content; " +
+		"to the stated depth with at most the stated number of committed blocks, once without caches and a permanent batch limit of 2, once with a permanent state cache and pool operation cache of 16, block writers whose cache (1) is smaller than their blocks and a batch limit of 3 (thorough: also both with the default limit 333 and writer caches of 16); state key as in C19 + pool content; " +
 		"after every transition: all Center reads over the full query domain + all pool reads, close everything, reopen on the same goleveldb storage, the same reads again, compared object by object and byte by byte; " +
 		"non-trivial = a state with at least one temp to reload and at least one block in the permanent database")
 	r.Assume("block map is base.DummyBlockMap over a real isaac.Manifest and the suffrage proof is the harness type vfProof (isaac/block cannot be imported from inside isaac/database); goleveldb (incl. its journal recovery on Open) and the JSON encoder are trusted")
@@ -273,12 +282,23 @@ func TestVerifC20(t *testing.T) {
 	r.Assume("TempPool.LastVoteproofs is memory-only by design (never written to the storage) and is not compared")
 	r.Set("depth", depth)
 	r.Set("max_blocks", maxblocks)
-	r.Set("cache_sizes", []int{0, 16})
+	r.Set("configurations", []string{"no caches/batchlimit 2", "permanent cache 16, writer caches 1/batchlimit 3", "thorough: + no caches and caches of 16 with the default batch limit 333"})
 
 	counter := 0
 
-	for _, cachesize := range []int{0, 16} {
-		s := &c20Search{r: r, env: env, cachesize: cachesize, maxblocks: maxblocks, depth: depth, name: fmt.Sprintf("cache%d", cachesize), counter: &counter}
+	searches := []*c20Search{
+		// every block is merged into the permanent database in several batches
+		{name: "cache0-batch2", permbatch: 2},
+		// permanent state cache holding every key, block writers whose cache is smaller than their blocks
+		{name: "cache16-writer-cache1-batch3", cachesize: 16, writercache: 1, seqstates: true, permbatch: 3},
+	}
+
+	if r.Thorough() {
+		searches = append(searches, &c20Search{name: "cache0"}, &c20Search{name: "cache16", cachesize: 16})
+	}
+
+	for _, s := range searches {
+		s.r, s.env, s.maxblocks, s.depth, s.counter = r, env, maxblocks, depth, &counter
 		s.run()
 	}
 
